@@ -197,12 +197,13 @@ pub fn gen_seq(seed: u64, o: &SeqOpts) -> Plan {
     let mut ids = IdGen(0);
     let mut tracks: Vec<TopicTrack> = (0..n_topics).map(|_| TopicTrack { lens: vec![], cursor: 0 }).collect();
     let mut incarnations = Vec::new();
-    let mut clock_ms: u64 = 1_700_000_000_000 + rng.below(1_000_000);
+    let clock_ms: u64 = 1_700_000_000_000 + rng.below(1_000_000);
     let open_op = |ids: &mut IdGen| Op {
         id: ids.next(),
         kind: OpKind::Open { inst: 0, key: Some("k".into()), dir: "d".into(), alo, fsync: fsync.clone() },
     };
     let mut big_budget = if geometry == "real" { 3 } else { 12 };
+    let mut clock_delta: i64 = 0;
     for inc_i in 0..n_inc {
         let mut ops: Vec<Op> = vec![open_op(&mut ids)];
         let n_here = (total_ops / n_inc as u64).max(1);
@@ -395,18 +396,18 @@ pub fn gen_seq(seed: u64, o: &SeqOpts) -> Plan {
         incarnations.push(Incarnation {
             sched,
             clock_start_ms: clock_ms,
+            clock_delta_ms: if inc_i == 0 { None } else { Some(clock_delta) },
             backend: backend.clone(),
             phases: vec![Phase { threads: vec![ops] }],
             faults: vec![],
             buggify: vec![],
             trace_io: false,
         });
-        if o.clock_jumps {
-            let d: i64 = *rng.pick(&[1i64, 3_600_000, 0, -1, -3_600_000, -31_536_000_000, 50, 86_400_000]);
-            clock_ms = (clock_ms as i64 + d).max(1_000_000) as u64;
+        clock_delta = if o.clock_jumps {
+            *rng.pick(&[1i64, 3_600_000, 0, -1, -3_600_000, -31_536_000_000, 50, 86_400_000, -40, -2_000])
         } else {
-            clock_ms += rng.range(1, 5_000);
-        }
+            rng.range(1, 5_000) as i64
+        };
     }
     Plan {
         v: 1,
@@ -425,8 +426,9 @@ pub fn gen_reject(rng: &mut Rng, g: Geom, ids: &mut IdGen, t: u32, topics: &mut 
         0 => Op { id: ids.next(), kind: OpKind::BatchAlias { inst: 0, topic: t, n: 2001 + rng.below(50), each: rng.range(0, 30) } },
         1 => {
             // total bytes over the batch cap: n slices aliasing one buffer
-            let each = (g.block / 2).min(4 * 1024 * 1024);
+            let each = if g.block > 1024 * 1024 { 6 * 1024 * 1024 } else { g.block / 2 };
             let n = (g.max_batch_bytes / (each + 256) + 1 + rng.below(3)).min(2000);
+            assert!(n * (each + 256) > g.max_batch_bytes);
             Op { id: ids.next(), kind: OpKind::BatchAlias { inst: 0, topic: t, n, each } }
         }
         2 => Op { id: ids.next(), kind: OpKind::Append { inst: 0, topic: t, len: g.max_alloc - 255 + rng.below(64) } },
